@@ -210,7 +210,7 @@ func RunScenario(sc Scenario, maxRbuf uint64) result {
 	send := func(typ uint8, size int) {
 		raw := rawFor(p, typ, size, r)
 		m, mi := s.NewOutbound(raw, typ)
-		err := s.P.SendMessage(m)
+		err := s.SendTimed(m)
 		note("send type=%d len=%d id=%d err=%v", typ, len(raw), mi.Id, err)
 	}
 	all := allTypes(p.Map)
@@ -248,7 +248,7 @@ func RunScenario(sc Scenario, maxRbuf uint64) result {
 					for b := 0; b < burst; b++ {
 						raw := rawFor(p, t.MsgType, pickSize(r, 0), r)
 						m, mi := s.NewOutbound(raw, t.MsgType)
-						err := s.P.SendMessage(m)
+						err := s.SendTimed(m)
 						note("send type=%d len=%d id=%d err=%v", t.MsgType, len(raw), mi.Id, err)
 						// the peer's answers: walk peer-agency states until we get agency back
 						ns, ok := nextStateOf(s.stateMap, stSim, t.MsgType, raw, r)
@@ -384,7 +384,7 @@ func RunScenario(sc Scenario, maxRbuf uint64) result {
 				for i := 0; i < k; i++ {
 					raw := rawFor(p, req.MsgType, 8, r)
 					m, _ := s.NewOutbound(raw, req.MsgType)
-					_ = s.P.SendMessage(m)
+					_ = s.SendTimed(m)
 					sz := 30000 + r.Intn(60000)
 					if limit > 0 {
 						sz = limit/6 + r.Intn(limit/5)
@@ -473,7 +473,7 @@ func RunScenario(sc Scenario, maxRbuf uint64) result {
 			t := e.Transitions[0]
 			raw := RawMsg(t.MsgType, e.PendingMessageByteLimit+1, 3)
 			m, mi := s.NewOutbound(raw, t.MsgType)
-			err := s.P.SendMessage(m)
+			err := s.SendTimed(m)
 			note("send over the limit id=%d err=%v", mi.Id, err)
 		}
 	case "bigbuf":
@@ -853,6 +853,8 @@ func Post(c *vh.Ctx) error {
 				what = "messages on the wire are not a prefix of the model's wire log"
 			case code == 5:
 				what = "error flag differs from the model's"
+			case code == 7:
+				what = "sequence of messages making their send transition differs from the model's (= written order)"
 			case code == 6:
 				what = "the model is about to report an error (a loop in its failing phase) but the implementation never called SendError"
 			default:
